@@ -105,11 +105,14 @@ impl Scenario for KeepAlive {
             // "PONG with any token": another token, and the two-parameter form
             acts.push(Act::Send(0, "PONG :another".into()));
             acts.push(Act::Send(0, "PING tok".into()));
+            // the form with a server name after the token: the token is still the first parameter
+            acts.push(Act::Send(0, "PING tok2 irc.irc".into()));
             // other traffic: a capability request after registration (no CAP END is owed)
             acts.push(Act::Send(0, "CAP REQ :multi-prefix".into()));
             if self.full {
                 acts.push(Act::Send(0, "CAP LS 302".into()));
                 acts.push(Act::Send(0, "PONG irc.irc :LALAL".into()));
+                acts.push(Act::Send(0, "PING 12345 :some.other.server".into()));
                 acts.push(Act::Send(0, "LUSERS".into()));
             }
         }
